@@ -259,16 +259,31 @@ def replay_expr(bo, ps):
     return rp
 
 
+def _edge_pool():
+    """instructions whose encodings begin / end with bytes that could be mistaken for something else (zero operands, zero
+    high bytes of fixed-width operands, empty expression blocks, nops in between)"""
+    return [cfi.InstNop(), cfi.InstDefCFAOffset(0), cfi.InstDefCFA(0, 0), cfi.InstOffset(0, 0), cfi.InstRestore(0), cfi.InstRestore(63),
+            cfi.InstDefCFAExpression([]), cfi.InstDefCFAExpression([expr.OpBReg(7, 0)]), cfi.InstValExpression(3, [expr.OpConst4S(200)]),
+            cfi.InstExpression(0, [expr.OpConst8U(1)]), cfi.InstRegister(0, 0), cfi.InstUndefined(0), cfi.InstDefCFAOffsetSF(0), cfi.InstRememberState()]
+
+
 def replay_parse(bo, ps):
     def rp(clause, model):
+        import itertools
+        cands = []
         for n in _lens(model, "insts_len!"):
-            insts = [_ipool()[i % len(_ipool())] for i in range(n)]
+            cands.append([_ipool()[i % len(_ipool())] for i in range(n)])
+        ep = _edge_pool()
+        for n in (1, 2):
+            cands.extend(list(c) for c in itertools.product(ep, repeat=n))
+        cands.extend([a, cfi.InstNop(), b] for a in ep for b in ep[:4])
+        for insts in cands:
             value = b"".join(bytes(i.encode(bo, ps)) for i in insts)
             try:
                 got = list(cfi.parse_cfi_instructions(value, bo, ps))
             except Exception as e:
-                return {"confirmed": True, "insts": repr(insts), "observed": "raised %s: %s" % (type(e).__name__, e)}
+                return {"confirmed": True, "insts": repr(insts), "bytes": value.hex(), "observed": "raised %s: %s" % (type(e).__name__, e)}
             if got != insts:
-                return {"confirmed": True, "insts": repr(insts), "observed": repr(got)}
+                return {"confirmed": True, "insts": repr(insts), "bytes": value.hex(), "observed": repr(got)}
         return {"confirmed": False, "observed": "native runs satisfy the contract"}
     return rp
